@@ -570,9 +570,7 @@ func (e *Engine) step(st *State) {
 	if fr.Recovered {
 		// a deferred call recovered a panic: run the remaining defers, then return through the Recover block
 		if len(fr.Defers) > 0 {
-			d := fr.Defers[len(fr.Defers)-1]
-			fr.Defers = fr.Defers[:len(fr.Defers)-1]
-			e.runDeferred(st, fr, d)
+			e.runDeferred(st, fr, DeferRec{})
 			return
 		}
 		fr.Recovered = false
@@ -605,9 +603,7 @@ func (e *Engine) unwind(st *State, th *Thread) {
 		panic(pathEnd{kind: "panic", msg: fmt.Sprintf("%s: %s at %s", p.Kind, p.Msg, p.Pos)})
 	}
 	if len(fr.Defers) > 0 {
-		d := fr.Defers[len(fr.Defers)-1]
-		fr.Defers = fr.Defers[:len(fr.Defers)-1]
-		e.runDeferred(st, fr, d)
+		e.runDeferred(st, fr, DeferRec{})
 		return
 	}
 	// no more defers: drop the frame
@@ -774,9 +770,7 @@ func (e *Engine) exec(st *State, fr *Frame, in ssa.Instruction) {
 			e.advance(st, fr)
 			return
 		}
-		d := fr.Defers[len(fr.Defers)-1]
-		fr.Defers = fr.Defers[:len(fr.Defers)-1]
-		e.runDeferred(st, fr, d)
+		e.runDeferred(st, fr, DeferRec{})
 	case *ssa.Defer:
 		e.execDefer(st, fr, x)
 	case *ssa.Go:
